@@ -43,8 +43,22 @@ class Ctx:
         self.notes = []
 
     def rule(self, rid, text):
+        pre = getattr(self, "rule_prefix", "")
+        if pre:
+            rid = pre + rid
+            text = "[shared] " + text
         self.rules.setdefault(rid, {"text": text, "obligations": 0, "discharged": 0, "instances": []})
         return rid
+
+    def shared(self, prefix, fn, *args, **kw):
+        """run a rule group of ANOTHER property's module inside this check (a mechanism this property depends on): its rule ids are
+        prefixed (`C11.R5`) so they do not collide with this property's own"""
+        old = getattr(self, "rule_prefix", "")
+        self.rule_prefix = prefix + "."
+        try:
+            return fn(self, *args, **kw)
+        finally:
+            self.rule_prefix = old
 
     def ok(self, rid, instance):
         r = self.rules[rid]
